@@ -387,6 +387,43 @@ def sequence_family():
     # (not continued with `i.v = …` through the alias: on the unchanged tree the result of o.get() is then stale —
     # the call cache is keyed by o's own members — which is outside the fragment the property names)
     out.append((pre, st))
+  # (d) keyword-argument calls into user functions / methods / __call__ whose bodies themselves make calls
+  pre = ("def kf(v, w=0):\n  return len(str(v)) + abs(w)\n"
+         "def kg(a, *, b='x'):\n  return b.join([str(a), repr(a)])\n"
+         "class K:\n  def __init__(self, n=1):\n    self.n = abs(n)\n"
+         "  def m(self, p, q=2):\n    return str(p) + ','.join([str(q)])\n"
+         "  def __call__(self, n=0):\n    return len([n]) + int(float(n))\n"
+         "  @staticmethod\n  def s(t, u=None):\n    return sorted([t], key=str)\n"
+         "  @classmethod\n  def c(cls, t=0):\n    return cls(n=int(t))\n")
+  st = ["kf(v=1)", "kf(1, w=2)", "kf(1, w=2) + 1", "kf(1, w=2) + 'a'", "kf(v=1).bit_length()", "kf(v=1).upper()",
+        "kg(1, b='-')", "kg(a=1)", "kg(1, b='-').upper()", "kg(1, b='-').nope", "-kg(1, b='-')",
+        "k = K(n=3)", "k.n", "k.m(1, q=2)", "k.m(p=1)", "k.m(1, q=2).upper()", "k.m(1, q=2).nope", "k.m(p=1, q=3) + 'z'",
+        "k.m(p=1, q=3) + 1", "k(n=1)", "k(n=1).bit_length()", "k(n=1).upper()", "K.s(1, u=2)", "K.s(t=1)[0]",
+        "K.s(t=1).append(2)", "K.s(t=1).nope()", "K.c(t=2)", "K.c(t=2).n", "K.c(t=2).m(1, q=2)", "K.c(t=2).nope",
+        "kf(*[1], w=3)", "kf(**{'v': 1})", "k.m(*[1], **{'q': 2})"]
+  out.append((pre, st))
+  # (e) cooperating __init__ methods under multiple inheritance (diamond; mix-in in front of a plain class)
+  pre = ("class Base:\n  def __init__(self):\n    self.base = 1\n"
+         "class Left(Base):\n  def __init__(self):\n    super().__init__()\n    self.left = 'l'\n"
+         "  def twice(self):\n    return self.left * 2\n"
+         "class Right(Base):\n  def __init__(self):\n    super().__init__()\n    self.right = 'r'\n"
+         "  def only_right(self):\n    return self.right\n"
+         "class Both(Left, Right):\n  def __init__(self):\n    super().__init__()\n    self.both = 2.5\n"
+         "  def hello(self):\n    return self.left + self.right\n"
+         "class Mixin:\n  def __init__(self, *a):\n    super().__init__(*a)\n    self.mix = 1\n"
+         "class Plain:\n  def __init__(self):\n    self.plain = {'k': 1}\n"
+         "  def __getitem__(self, k):\n    return self.plain[k]\n"
+         "class Mixed(Mixin, Plain):\n  pass\n"
+         "class Three(Mixin, Left, Right):\n  def __init__(self):\n    super().__init__()\n    self.three = [3]\n")
+  st = ["b = Both()", "b.base", "b.left", "b.right", "b.both", "b.nope", "b.right + 'x'", "b.right + 1", "b.right.upper()",
+        "b.right.bit_length()", "b.only_right()", "b.only_right().upper()", "b.hello()", "b.twice()", "b.base.bit_length()",
+        "b.left.bit_length()", "b.both.hex()", "b.both.upper()",
+        "m = Mixed()", "m.mix", "m.plain", "m['k']", "m.plain.keys()", "m.nope", "-m", "m()", "m.mix.bit_length()",
+        "m.plain.upper()",
+        "t = Three()", "t.mix", "t.left", "t.right", "t.base", "t.three", "t.only_right()", "t.twice()", "t.right.upper()",
+        "t.three.append(4)", "t.three.upper()", "t.nope",
+        "l = Left()", "l.left", "l.base", "l.right", "r = Right()", "r.right", "r.left", "r.only_right() + 'x'"]
+  out.append((pre, st))
   return out
 
 
